@@ -24,6 +24,7 @@ func runC06(c *Ctx, r *Report) {
 	c06Inferrers(c, r)
 	c06Flags(c, r)
 	c06JSON(c, r)
+	c06BothCases(c, r)
 }
 
 // ---- R06.1 -----------------------------------------------------------------
